@@ -143,6 +143,15 @@ theorem gen_open_order :
 /-- `stepClose`: stop the loops, wait for them, drop the root, Unlock -/
 theorem gen_close_order : BlugeGen.C11.closeOrder = ["close-closeCh", "wait", "replace-root", "unlock"] := by decide
 
+/-- `stepClose` always releases the lock: in `close()` no `return` lies between `asyncTasks.Wait()` and `directory.Unlock()`
+(an error of the dropped root's closers must not keep the pid file locked — closeOnce makes every later Close a no-op) -/
+theorem close_always_unlocks : BlugeGen.C11.closeReturnsBeforeUnlock = 0 := by decide
+
+/-- the in-memory merge gives back the reference it took with `loadSegment(newSegmentID)` both when the writer is closed
+before the introduction and when the introduction was skipped (checked on every real run by the handle balance) -/
+theorem mem_merge_releases_loaded_segment :
+    BlugeGen.C11.memMergeReleases = ["closed-writer", "after-introduction"] := by decide
+
 /-- `loadOrder`/`commitAll`: loadSnapshots walks oldest → newest, commits each loaded snapshot, skips the unloadable -/
 theorem gen_load_snapshots :
     BlugeGen.C11.loadOldestFirst = true ∧ BlugeGen.C11.loadCommits = true ∧ BlugeGen.C11.loadContinuesOnErr = true := by decide
